@@ -42,6 +42,10 @@ pub struct SrcCase {
 	/// the keyboard source is switched (on <-> off) this many times at run time before the steps start
 	#[serde(default)]
 	pub toggles: u8,
+	/// what `Type` writes to the probe's stdin (never an event, whatever it is): 0 a short line, 1 text without
+	/// a newline, 2 a latin-1 line (not UTF-8), 3 binary with NULs and 0xFF, 4 one 20 KB line
+	#[serde(default)]
+	pub typed: u8,
 }
 
 pub fn strategy() -> BoxedStrategy<SrcCase> {
@@ -52,8 +56,17 @@ pub fn strategy() -> BoxedStrategy<SrcCase> {
 		prop_oneof![2 => Just(0u8), 3 => 0u8..64],
 		proptest::collection::vec((prop_oneof![Just(2u16), Just(15), Just(60), Just(150)], act), 1..9),
 		prop_oneof![3 => Just(0u8), 1 => Just(1), 1 => Just(2), 1 => Just(3)],
+		prop_oneof![1 => Just(0u8), 1 => Just(1), 3 => Just(2), 3 => Just(3), 1 => Just(4)],
 	)
-		.prop_map(|(throttle, keyboard, reject, steps, toggles)| SrcCase { throttle, keyboard, reject, steps, toggles })
+		.prop_map(|(throttle, keyboard, reject, mut steps, toggles, typed)| {
+			// two thirds of the cases that close stdin type something first
+			if (usize::from(typed) + steps.len()) % 3 != 0 {
+				if let Some(i) = steps.iter().position(|(_, a)| *a == Act::CloseStdin) {
+					steps.insert(i, (15, Act::Type));
+				}
+			}
+			SrcCase { throttle, keyboard, reject, steps, toggles, typed }
+		})
 		.boxed()
 }
 
@@ -133,7 +146,15 @@ pub fn run(c: &SrcCase) -> Outcome {
 			}
 			Act::Type => {
 				if let Some(s) = stdin.as_mut() {
-					let _ = s.write_all(b"x\n");
+					let long = vec![b'y'; 20_000];
+					let bytes: &[u8] = match c.typed % 5 {
+						0 => b"x\n",
+						1 => b"no newline",
+						2 => b"caf\xe9 cr\xe8me\n",
+						3 => b"\x00\xff\xfe\x80\n\x00\x01",
+						_ => &long,
+					};
+					let _ = s.write_all(bytes);
 					let _ = s.flush();
 				}
 			}
@@ -162,6 +183,11 @@ pub fn run(c: &SrcCase) -> Outcome {
 	}
 	if closed && keyboard_on {
 		o.label("keyboard-eof");
+		if let Some(i) = c.steps.iter().position(|(_, a)| *a == Act::CloseStdin) {
+			if c.steps[..i].iter().any(|(_, a)| *a == Act::Type) && matches!(c.typed % 5, 2 | 3) {
+				o.label("keyboard-eof-after-non-utf8-input");
+			}
+		}
 	}
 	if !rejected.is_empty() && (0..6).any(|k| sent[k] > 0 && c.reject & (1 << k) != 0) {
 		o.label("rejected-signal-sent");
